@@ -650,6 +650,21 @@ fn tarfmt(rng: &mut Rng, ctx: &mut Ctx) {
         c.impl_out = format!("ok same n={} first=peppi.json sig=true", exp.len());
         c.tags.push(format!("mdjson%512={}", if md_len % 512 == 0 { "0" } else { "n" })); c.tags.push(format!("entries{}", exp.len()));
         ctx.push(c);
+        // peppi.json as text: serde_json's rendering of `Peppi { version, slp_hash, quirks }` against the text model, both directions
+        { use peppi::io::peppi::{Peppi, Version as PV, MIN_VERSION}; let vals = [0u8, 1, 2, 3, 9, 10, 99, 100, 255];
+            let (va, vb, vc) = if k % 3 == 0 { (2, 0, 0) } else { (vals[(rng.next() % 9) as usize], vals[(rng.next() % 9) as usize], vals[(rng.next() % 9) as usize]) };
+            let hs: Option<String> = match k % 4 { 0 => None, 1 => Some(format!("xxh3:{:016x}", rng.next())), 2 => Some(String::new()),
+                _ => Some((0..(rng.next() % 12)).map(|_| ['"', '\\', '/', 'a', '\u{8}', '\u{c}', '\n', '\r', '\t', '\u{1}', '\u{1f}', '\u{7f}', 'é', '日', '😀', ' ', ':', '}'][(rng.next() % 18) as usize]).collect()) };
+            let q = [None, Some(false), Some(true)][(k / 4) % 3];
+            let p = Peppi { version: PV(va, vb, vc), slp_hash: hs.clone(), quirks: q.map(|b| peppi::game::Quirks { double_game_end: b }) };
+            let text = serde_json::to_vec(&p).unwrap();
+            let mut c = Case::new(format!("peppiw {} {} {} {} {}", va, vb, vc, match &hs { None => "-".to_string(), Some(h) => format!("x{}", hex(h.as_bytes())) }, match q { None => "-", Some(false) => "0", Some(true) => "1" }), format!("ok {}", hex(&text)));
+            c.tags = vec!["peppi.json:write".into()]; ctx.push(c);
+            let cut = if k % 5 == 4 { (rng.next() as usize) % text.len() } else { text.len() };
+            let t = &text[..cut];
+            let line = match serde_json::from_slice::<Peppi>(t) { Err(e) => format!("err {}", e), Ok(p2) => format!("ok vok={} hash={} quirks={}", p2.version >= MIN_VERSION, match &p2.slp_hash { None => "-".to_string(), Some(h) => hex(h.as_bytes()) }, match p2.quirks { None => "-", Some(q) => if q.double_game_end { "1" } else { "0" } }) };
+            let mut c = Case::new(format!("peppir {}", hex(t)), line); c.tags = vec![format!("peppi.json:read:{}", if cut == text.len() { "whole" } else { "cut" })]; ctx.push(c);
+        }
         // the lazy iterator on prefixes: the `tar` crate member by member against `tarScan` (what each cut of the archive makes the reader see)
         if a.len() <= 40_000 {
             let mut bounds: Vec<usize> = vec![0]; { let mut pos = 0usize; while pos + 512 <= a.len() { let h = &a[pos..pos + 512]; if h.iter().all(|x| *x == 0) { break; }
